@@ -22,10 +22,11 @@ CONSTANTS TermKinds,     \* sequence of <<coefficient kind, vector kind>>: the t
           ApplyMaxTerms,
           NonVecKinds,   \* non-vector expressions (must be refused)
           ScalK2, ScalK1, ScalK0,   \* coefficient kinds of the scalar equations k2 x^2 + k1 x + k0 = 0
+          RadicalEqs,    \* triples <<p, q, r>> of integers: the radical equations sqrt(p x + q) = x + r
           Assigns,
           ShardK, ShardI  \* the enumeration can be split over ShardK TLC processes (by the first term); 1, 0 = all
 
-VARIABLES mode,    \* "start" | "vec" | "nonvec" | "scalar"
+VARIABLES mode,    \* "start" | "vec" | "nonvec" | "scalar" | "radical"
           terms,   \* vec: indices into TermKinds (strictly increasing); nonvec: <<kind>>; scalar: <<k2, k1, k0>>
           fin      \* [done, op, form, reduce, fn]
 
@@ -149,6 +150,14 @@ ScalarVerdict(A, ks, s) ==
   LET res == Residual(A, ks, s) IN
   IF IsU(res) THEN "un" ELSE IF IsZero(ValOf(res)) THEN "ok" ELSE "bad"
 
+\* radical equation sqrt(p x + q) = x + r (ks = programs of p, q, r) and a proposed solution s: squaring
+\* introduces roots that do not satisfy the equation itself
+RadResidual(A, ks, s) ==
+  Add(SqrtS(Add(Mul(Eval(A, ks[1]), s), Eval(A, ks[2]))), Neg(Add(s, Eval(A, ks[3]))))
+RadicalVerdict(A, ks, s) ==
+  LET res == RadResidual(A, ks, s) IN
+  IF IsU(res) THEN "un" ELSE IF IsZero(ValOf(res)) THEN "ok" ELSE "bad"
+
 -----------------------------------------------------------------------------
 (* The machine enumerating the shapes.                                       *)
 
@@ -186,7 +195,13 @@ ScalarEq(k2, k1, k0, form) ==
   /\ mode' = "scalar" /\ terms' = <<k2, k1, k0>>
   /\ fin' = [done |-> TRUE, op |-> "solve_scalar", form |-> form, reduce |-> FALSE, fn |-> "none"]
 
-Next == \/ \E i \in DOMAIN TermKinds : AddTerm(i)
+RadicalEq(pqr, form) ==
+  /\ mode = "start" /\ form \in {"expr", "eqO"}
+  /\ mode' = "radical" /\ terms' = pqr
+  /\ fin' = [done |-> TRUE, op |-> "solve_radical", form |-> form, reduce |-> FALSE, fn |-> "none"]
+
+Next == \/ \E pqr \in RadicalEqs, f \in Forms : RadicalEq(pqr, f)
+        \/ \E i \in DOMAIN TermKinds : AddTerm(i)
         \/ \E f \in Forms, r \in BOOLEAN : FinishSolve(f, r)
         \/ \E f \in Forms, g \in ApplyFns : FinishApply(f, g)
         \/ \E k \in NonVecKinds, f \in Forms : NonVector(k, f)
@@ -210,6 +225,7 @@ TermsAs(form) == [j \in DOMAIN terms |->
                     <<CoefParts(TermKinds[terms[j]][1]), VecProg[TermKinds[terms[j]][2]], SideOf(form, terms[j])>>]
 Ts == TermsAs(fin.form)
 ScalProgs == <<CoefProg[terms[1]], CoefProg[terms[2]], CoefProg[terms[3]]>>
+RadProgs == << << <<"int", terms[1]>> >>, << <<"int", terms[2]>> >>, << <<"int", terms[3]>> >> >>
 
 -----------------------------------------------------------------------------
 (* Properties of the model itself.                                           *)
@@ -255,7 +271,14 @@ Solution == (VecDone /\ fin.op = "solve" /\ fin.reduce /\ OnlyInOneTerm) => \A i
 RefusalRule == (VecDone /\ fin.op = "solve") => \A i \in 1..NA :
   (Expect(Assigns[i], Ts) = "refuse") <=> (\A j \in DOMAIN terms : ~KindIsU(terms[j]))
 
-TypeOK == /\ mode \in {"start", "vec", "nonvec", "scalar"}
+\* every radical equation of the configuration has a root in the model (the enumeration is not vacuous) and a
+\* root of the squared equation that is not a root of the equation (what a solver without back-substitution returns)
+RadicalsMeaningful == mode = "radical" => \A i \in 1..NA :
+  /\ \E c \in -12..12 : RadicalVerdict(Assigns[i], RadProgs, IntS(c)) = "ok"
+  /\ \E c \in -12..12 : /\ RadicalVerdict(Assigns[i], RadProgs, IntS(c)) = "bad"
+                         /\ terms[1] * c + terms[2] = (c + terms[3]) * (c + terms[3])
+
+TypeOK == /\ mode \in {"start", "vec", "nonvec", "scalar", "radical"}
           /\ fin.done \in BOOLEAN
           /\ (mode = "vec" => \A j \in DOMAIN terms : terms[j] \in DOMAIN TermKinds)
 
@@ -270,6 +293,7 @@ Emit ==
   fin.done =>
     PrintT(ToJson(
       [mode |-> mode, op |-> fin.op, form |-> fin.form, reduce |-> fin.reduce, fn |-> fin.fn,
-       ts |-> IF mode = "vec" THEN Ts ELSE IF mode = "nonvec" THEN <<NonVecProg[terms[1]]>> ELSE ScalProgs,
+       ts |-> IF mode = "vec" THEN Ts ELSE IF mode = "nonvec" THEN <<NonVecProg[terms[1]]>>
+              ELSE IF mode = "radical" THEN RadProgs ELSE ScalProgs,
        exp |-> IF mode = "vec" THEN [i \in 1..NA |-> ExpectRec(Assigns[i])] ELSE <<>>]))
 =============================================================================
